@@ -211,6 +211,8 @@ def run(ctx):
                      % (show(dict(t[3]).get('file')), show(dict(t[3]).get('index'))), st['span'], key=fr.name + '|O2')
 
     # ---------------- O3: chunk dispatch: each kind -> its decoder, on the chunk's own payload
+    import C07
+    C07.chunk_count_selection(ctx, 'O3')
     if pf is not None:
         import C10 as _c10
         sws = [s for s in q.switches_on(pf, lambda d: d[0] == 'discr') if 'OldPalette04' in _c10.switch_variants(pf, s).values()]
